@@ -6,7 +6,7 @@ import json,glob,re,os,sys
 root='/verif'
 res_p=f'{root}/tools/selfcheck_results.json'
 res=json.load(open(res_p)) if os.path.exists(res_p) else {}
-for log in sorted(glob.glob(f'{root}/build/logs/selfcheck/*.log')):
+for log in sorted(glob.glob(f'{root}/build/logs/selfcheck/*.log'),key=os.path.getmtime):
     prop=os.path.basename(log)[:-4].split('.')[0]
     for l in open(log):
         m=re.match(r'^(CAUGHT|MISSED\((\d+)\)|NOAPPLY)\s+(\S+)(?:\s+\((?:signature:\s*)?(.*)\))?',l)
